@@ -15,6 +15,8 @@ from pymemcache import serde as S
 
 PROPERTY = "C15"
 LEVEL = "exploration"
+# parts repeated in a child interpreter started with -O and with warnings turned into errors (vlib/runner.py, MODES)
+MODE_PARTS = {"OW": ['grid', 'one-serializer-object', 'written-by-one-read-by-another']}
 RULE = ("case = (serde configuration, value description). Values: a recursive Hypothesis strategy over bytes, str, "
         "int (either sign, up to 4000 digits, digit counts straddling every threshold), bool, None, float (no NaN), bytearray, bytes that are themselves a complete zlib / bz2 / lzma / gzip stream or a pickle (data the application packed itself), text beginning with U+FEFF / U+FFFE / NUL, "
         "complex, Decimal, datetime, tuple/list/dict/set/frozenset, and module-level subclasses of int/str/bytes/"
